@@ -61,6 +61,12 @@ def handle : List String → String
       if params.isEmpty || params.any (fun p => p.length != kinds.length) then "bad-op"
       else showResult (execInsert kinds params)
     | _, _ => "bad-op"
+  | ["insertmv", ks, ps] =>
+    match parseKinds? ks, parseParams? ps with
+    | some kinds, some params =>
+      if params.isEmpty || params.any (fun p => p.length != kinds.length) then "bad-op"
+      else showResult (execInsertMulti kinds params)
+    | _, _ => "bad-op"
   | ["update", ks, ps, os] =>
     match parseKinds? ks, parseParams? ps, parseRows? os with
     | some kinds, some params, some olds =>
